@@ -173,6 +173,12 @@ def run(ctx):
                'move_past_token does not target tok.pos_end', construct='move_past_token')
 
     # ------------------------------------------------------------ R11e
+    prespace_forwarding(ctx, 'R11e', m, meths)
+    ip = meths.get('impl_peek_token')
+    return _rest_r11e(ctx, repo, m, meths, ip)
+
+
+def prespace_forwarding(ctx, rule, m, meths):
     for fname, f in sorted(meths.items()):
         params = {a.arg for a in f.args.args}
         for c in [c for c in iter_own(f) if isinstance(c, ast.Call) and
@@ -180,16 +186,18 @@ def run(ctx):
             ps = kwarg(c, 'pre_space')
             ok = isinstance(ps, ast.Name) and ps.id == 'pre_space'
             if ok:
-                ctx.holds('R11e', m, c, 'pre_space forwarded unchanged',
+                ctx.holds(rule, m, c, 'pre_space forwarded unchanged',
                           construct='%s: pre_space of token(%s)' % (fname, short(kwarg(c, 'tok'), 25)),
                           trivial=True)
             else:
-                ctx.refuted('R11e', m, c, 'token receives pre_space=%s, not the leading whitespace '
+                ctx.refuted(rule, m, c, 'token receives pre_space=%s, not the leading whitespace '
                                           'that was peeked: pos - len(pre_space) no longer marks '
                                           'where the whitespace started, characters are lost from '
                                           'the token stream' % short(ps),
                             construct='%s: pre_space of token(%s)' % (fname, short(kwarg(c, 'tok'), 25)))
-    ip = meths.get('impl_peek_token')
+
+
+def _rest_r11e(ctx, repo, m, meths, ip):
     if ip is None:
         raise AnalysisError('anchor vanished: impl_peek_token')
     # paired truncations: X = X[:k]  <->  Y = base + k   (same k)
